@@ -888,8 +888,24 @@ Open Scope N_scope.
 """
 
 
+# Places where the committed snapshot deliberately holds the value the external registries prescribe
+# instead of the source's (a confirmed defect): (CoinsConf entry, key) -> (value in the source, right value).
+# Must mirror coq/Lemmas/CoinsExpected.v cconf_offenders; drop an item once its fix is in /repo.
+REGISTRY_OVERRIDES = {
+    ("BitcoinRegTest", "p2wpkh_wit_ver"): (1, 0),      # F19
+}
+
+
 def registry_text(notes=""):
     d = collect()
+    fixed = []
+    for attr, nm, ab, params in d["cctable"]:
+        ps = []
+        for k, v in params:
+            o = REGISTRY_OVERRIDES.get((attr, k))
+            ps.append((k, o[1] if (o is not None and o[0] == v) else v))
+        fixed.append((attr, nm, ab, ps))
+    d["cctable"] = fixed
     t = REGISTRY_HEADER % notes
     t += f"Definition golden_slip44 : list (list N * N) :=\n  {slip44_text(d['slip44'])}.\n\n"
     t += f"Definition golden_coins_conf : list cconf := {cctable_text(d['cctable'])}.\n\n"
